@@ -468,7 +468,12 @@ def execStmt (W : World Ω) : Nat → Stmt → St Ω → Option (Ctl × St Ω)
       match evalRhs W fuel lhs.length rhs st with
       | some (vs, st1) => (st1.env.pushAll lhs vs).map fun e => (.next, { st1 with env := e })
       | none => none
-    | .declare x ty => (zeroOf ty).map fun z => (.next, { st with env := st.env.push x z })
+    | .declare x ty =>
+      match zeroOf ty with
+      | some z => some (.next, { st with env := st.env.push x z })
+      | none =>
+        -- a type the interpreter has no zero value for: the world's (`zero:<type>`), e.g. a nil slice of options
+        (W.global ("zero:" ++ ty)).map fun z => (.next, { st with env := st.env.push x z })
     | .assign lhs rhs =>
       match evalRhs W fuel lhs.length rhs st with
       | some (vs, st1) => (assignAll W fuel lhs.toList vs st1).map fun st2 => (.next, st2)
